@@ -61,6 +61,7 @@ func checkC11(ctx *Ctx, r *Report) {
 	c11HuntedRules(ctx, r)
 	c02PythonIdentifierCharacters(ctx, r)
 	c11AbsentStaysAbsent(ctx, r)
+	c12GoByteArrays(ctx, r)
 	c11ThirdRound(ctx, r)
 	c06NullableGuardExact(ctx, r)
 	c11HintMonotone(ctx, r)
